@@ -102,6 +102,9 @@ structure State where
   stamp : Nat → Nat := fun _ => 0        -- arrival stamp of the agent's current request
   clock : Nat := 0                       -- number of published requests so far
   grantLog : List Nat := []              -- agents in the order they entered the critical section
+  fails : Nat → Nat := fun _ => 0        -- how many `try_lock` rounds of agent a failed
+  grantReqs : List (Nat × Nat) := []     -- requests (agent, round) in the order they were granted
+  failReqs : List (Nat × Nat) := []      -- `try_lock` requests (agent, round) that failed
 
 def upd {α} (f : Nat → α) (i : Nat) (v : α) : Nat → α := fun j => if j = i then v else f j
 
@@ -138,7 +141,8 @@ def handOver (c : Cfg) (s : State) (t a : Nat) : State × List Ev × Outcome :=
   match s.queue with
   | [] => (setPc s a Pc.relDone, [], Outcome.continue_)     -- unreachable under the invariant
   | b :: rest =>
-    let s := { s with queue := rest, grants := upd s.grants b (s.grants b + 1) }
+    let s := { s with queue := rest, grants := upd s.grants b (s.grants b + 1),
+                      grantReqs := s.grantReqs ++ [(b, s.round b)] }
     match c.kind b with
     | AKind.sync =>
         ({ setPc s a Pc.relDone with flag := upd s.flag b true }, [Ev.store t a b (s.flagNo b - 1)], Outcome.op)
@@ -168,7 +172,8 @@ def agentStep (c : Cfg) (s : State) (t a : Nat) : State × List Ev × Outcome :=
       | none => (setPc s a Pc.done, [Ev.doneA a], Outcome.finished)
       | some r =>
         match s.req with
-        | [] => ({ setPc s a Pc.crit with req := [Elem.door], grants := upd s.grants a (s.grants a + 1) },
+        | [] => ({ setPc s a Pc.crit with req := [Elem.door], grants := upd s.grants a (s.grants a + 1),
+                                          grantReqs := s.grantReqs ++ [(a, s.round a)] },
                  [Ev.cas t a true Seen.null Seen.door], Outcome.op)
         | _ =>
           (setPc s a (match r.fl with
@@ -176,7 +181,9 @@ def agentStep (c : Cfg) (s : State) (t a : Nat) : State × List Ev × Outcome :=
               | Flavour.lock => Pc.subInit
               | Flavour.co => Pc.sub Seen.null), [Ev.cas t a false (seenOf s.req) Seen.door], Outcome.op)
   | Pc.tryFail =>
-      ({ setPc s a Pc.top with round := upd s.round a (s.round a + 1) }, [Ev.tryFail a (s.round a)], Outcome.continue_)
+      ({ setPc s a Pc.top with round := upd s.round a (s.round a + 1), fails := upd s.fails a (s.fails a + 1),
+                               failReqs := s.failReqs ++ [(a, s.round a)] },
+       [Ev.tryFail a (s.round a)], Outcome.continue_)
   | Pc.subInit =>
       ({ setPc s a (Pc.sub Seen.null) with flag := upd s.flag a false, flagNo := upd s.flagNo a (s.flagNo a + 1) },
        [], Outcome.continue_)
@@ -195,7 +202,8 @@ def agentStep (c : Cfg) (s : State) (t a : Nat) : State × List Ev × Outcome :=
   | Pc.build =>
       -- `build_queue(self)`: exchange with the doorman, move everything above `self` to `_queue` (reversed)
       ({ setPc s a Pc.crit with req := [Elem.door], queue := ((nodesOf s.req).filter (· ≠ a)).reverse ++ s.queue,
-                                 grants := upd s.grants a (s.grants a + 1) },
+                                 grants := upd s.grants a (s.grants a + 1),
+                                 grantReqs := s.grantReqs ++ [(a, s.round a)] },
        [Ev.xchg t a (seenOf s.req) Seen.door], Outcome.op)
   | Pc.waitFlag =>
       if s.flag a then (setPc s a Pc.crit, [Ev.waitPass t a (s.flagNo a - 1)], Outcome.op)
